@@ -4,6 +4,7 @@ import (
 	"fmt"
 	"go/token"
 	"go/types"
+	"os"
 	"sort"
 	"strings"
 
@@ -615,7 +616,44 @@ func c10Registration(c *core.Ctx, r *core.Report, s unorderedSource, cons string
 							}
 						}
 					}
-					if !through && !core.IsLogCall(com) {
+					// a helper without effects of its own (it only computes its result from its arguments; what the
+					// loop does with the result is judged where it is stored)
+					pure := true
+					for _, f := range c.StaticCalleesInPkg(cal, nil) {
+						for _, bb := range f.Blocks {
+							for _, ii := range bb.Instrs {
+								switch y := ii.(type) {
+								case *ssa.Store:
+									if _, local := y.Addr.(*ssa.Alloc); !local {
+										ia, isIA := y.Addr.(*ssa.IndexAddr)
+										_, localArr := (func() (ssa.Value, bool) {
+											if !isIA {
+												return nil, false
+											}
+											a, ok := ia.X.(*ssa.Alloc)
+											return a, ok
+										})()
+										if !isIA || !(localArr || freshSlice(ia.X)) {
+											pure = false
+											if os.Getenv("IOCVET_DEBUG") != "" {
+												fmt.Fprintln(os.Stderr, "IMPURE store", f, y)
+											}
+										}
+									}
+								case *ssa.MapUpdate, *ssa.Go, *ssa.Send, *ssa.Defer:
+									pure = false
+								case ssa.CallInstruction:
+									if _, isB := y.Common().Value.(*ssa.Builtin); !isB && y.Common().StaticCallee() == nil {
+										pure = false // dynamic call: unknown effects
+										if os.Getenv("IOCVET_DEBUG") != "" {
+											fmt.Fprintln(os.Stderr, "IMPURE call", f, y)
+										}
+									}
+								}
+							}
+						}
+					}
+					if !through && !pure && !core.IsLogCall(com) {
 						if _, isB := com.Value.(*ssa.Builtin); !isB {
 							bad = "call of " + cal.Name() + " in registration order"
 						}
@@ -649,6 +687,22 @@ func c10Registration(c *core.Ctx, r *core.Report, s unorderedSource, cons string
 		}
 	}
 	r.Check(bad == "", "C10.R1", cons, pos, "REGISTRATION-ORDER: component names arrive unordered, but inside the loop they only fill keyed containers and lists that are sorted by the ordering contract before use; processors of equal rank handle disjoint tags, definition-registry and factory post-processors act per tag / once "+bad)
+}
+
+// freshSlice: v is a slice the function made itself (make / append result / slice of a local array).
+func freshSlice(v ssa.Value) bool {
+	switch x := core.Norm(v).(type) {
+	case *ssa.MakeSlice:
+		return true
+	case *ssa.Slice:
+		_, isAlloc := x.X.(*ssa.Alloc)
+		return isAlloc
+	case *ssa.Call:
+		if bi, ok := x.Common().Value.(*ssa.Builtin); ok && bi.Name() == "append" {
+			return true
+		}
+	}
+	return false
 }
 
 func rolesOf(p *procInfo) []string {
